@@ -778,7 +778,7 @@ func genReadAtOp(r *RNG, bs int) Op {
 		// offsets a multiple of 2^32 (or 2^31, 2^16) away from a valid one, and
 		// the extremes: index arithmetic in a narrower type must not alias them
 		// onto retained bytes
-		op.X = r.Range(-2, 2) + r.Pick(1<<16, 1<<31, 1<<32, -(1 << 32), 2<<32, 1<<40, -(1 << 40), 1<<62, -(1 << 62))
+		op.X = r.Range(-2, 2) + r.Pick(1<<16, 1<<31, 1<<32, -(1<<32), 2<<32, 1<<40, -(1<<40), 1<<62, -(1<<62))
 	}
 	op.N = r.Pick(0, 1, 2, 3, 8, bs/2, bs, bs+1)
 	return op
